@@ -562,6 +562,8 @@ pub fn rule_from_ident<'a>(cddl: &'a CDDL, ident: &Identifier) -> Option<&'a Rul
 
 /// Find text values from a given identifier
 pub fn text_value_from_ident<'a>(cddl: &'a CDDL, ident: &Identifier) -> Option<&'a Type2<'a>> {
+  let _guard = AliasGuard::enter(ident)?;
+
   cddl.rules.iter().find_map(|r| match r {
     Rule::Type { rule, .. } if rule.name == *ident => {
       rule.value.type_choices.iter().find_map(|tc| {
@@ -630,6 +632,8 @@ pub fn text_value_from_type2<'a>(cddl: &'a CDDL, t2: &'a Type2<'a>) -> Option<&'
 
 /// Unwrap array, map or tag type rule from ident
 pub fn unwrap_rule_from_ident<'a>(cddl: &'a CDDL, ident: &Identifier) -> Option<&'a Rule<'a>> {
+  let _guard = AliasGuard::enter(ident)?;
+
   cddl.rules.iter().find_map(|r| match r {
     Rule::Type {
       rule:
@@ -786,11 +790,50 @@ pub fn type_choices_from_group_choice<'a>(
   type_choices
 }
 
+thread_local! {
+  /// Names currently being resolved through alias rules by the helpers below
+  static ACTIVE_ALIASES: std::cell::RefCell<Vec<String>> = const { std::cell::RefCell::new(Vec::new()) };
+}
+
+/// Marks a rule name as being resolved through alias rules (`a = b`) for as long
+/// as the guard lives. `enter` returns `None` when the name is already being
+/// resolved further up the call stack: the alias rules form a cycle
+/// (`a = b`, `b = a`), which denotes no type, so the caller answers "no"
+/// instead of recursing forever.
+pub(crate) struct AliasGuard;
+
+impl AliasGuard {
+  pub(crate) fn enter(ident: &Identifier) -> Option<AliasGuard> {
+    let name = ident.to_string();
+    ACTIVE_ALIASES.with(|active| {
+      let mut active = active.borrow_mut();
+      if active.contains(&name) {
+        None
+      } else {
+        active.push(name);
+        Some(AliasGuard)
+      }
+    })
+  }
+}
+
+impl Drop for AliasGuard {
+  fn drop(&mut self) {
+    ACTIVE_ALIASES.with(|active| {
+      active.borrow_mut().pop();
+    });
+  }
+}
+
 /// Is the given identifier associated with a null data type
 pub fn is_ident_null_data_type(cddl: &CDDL, ident: &Identifier) -> bool {
   if let Token::NULL | Token::NIL = lookup_ident(ident.ident) {
     return true;
   }
+
+  let Some(_guard) = AliasGuard::enter(ident) else {
+    return false;
+  };
 
   cddl.rules.iter().any(|r| match r {
     Rule::Type { rule, .. } if &rule.name == ident => rule.value.type_choices.iter().any(|tc| {
@@ -809,6 +852,10 @@ pub fn is_ident_bool_data_type(cddl: &CDDL, ident: &Identifier) -> bool {
   if let Token::BOOL = lookup_ident(ident.ident) {
     return true;
   }
+
+  let Some(_guard) = AliasGuard::enter(ident) else {
+    return false;
+  };
 
   cddl.rules.iter().any(|r| match r {
     Rule::Type { rule, .. } if &rule.name == ident => rule.value.type_choices.iter().any(|tc| {
@@ -836,6 +883,10 @@ pub fn ident_matches_bool_value(cddl: &CDDL, ident: &Identifier, value: bool) ->
     }
   }
 
+  let Some(_guard) = AliasGuard::enter(ident) else {
+    return false;
+  };
+
   cddl.rules.iter().any(|r| match r {
     Rule::Type { rule, .. } if &rule.name == ident => rule.value.type_choices.iter().any(|tc| {
       if let Type2::Typename { ident, .. } = &tc.type1.type2 {
@@ -853,6 +904,10 @@ pub fn is_ident_uri_data_type(cddl: &CDDL, ident: &Identifier) -> bool {
   if let Token::URI = lookup_ident(ident.ident) {
     return true;
   }
+
+  let Some(_guard) = AliasGuard::enter(ident) else {
+    return false;
+  };
 
   cddl.rules.iter().any(|r| match r {
     Rule::Type { rule, .. } if &rule.name == ident => rule.value.type_choices.iter().any(|tc| {
@@ -872,6 +927,10 @@ pub fn is_ident_b64url_data_type(cddl: &CDDL, ident: &Identifier) -> bool {
     return true;
   }
 
+  let Some(_guard) = AliasGuard::enter(ident) else {
+    return false;
+  };
+
   cddl.rules.iter().any(|r| match r {
     Rule::Type { rule, .. } if &rule.name == ident => rule.value.type_choices.iter().any(|tc| {
       if let Type2::Typename { ident, .. } = &tc.type1.type2 {
@@ -889,6 +948,10 @@ pub fn is_ident_tdate_data_type(cddl: &CDDL, ident: &Identifier) -> bool {
   if let Token::TDATE = lookup_ident(ident.ident) {
     return true;
   }
+
+  let Some(_guard) = AliasGuard::enter(ident) else {
+    return false;
+  };
 
   cddl.rules.iter().any(|r| match r {
     Rule::Type { rule, .. } if &rule.name == ident => rule.value.type_choices.iter().any(|tc| {
@@ -908,6 +971,10 @@ pub fn is_ident_time_data_type(cddl: &CDDL, ident: &Identifier) -> bool {
     return true;
   }
 
+  let Some(_guard) = AliasGuard::enter(ident) else {
+    return false;
+  };
+
   cddl.rules.iter().any(|r| match r {
     Rule::Type { rule, .. } if &rule.name == ident => rule.value.type_choices.iter().any(|tc| {
       if let Type2::Typename { ident, .. } = &tc.type1.type2 {
@@ -926,6 +993,10 @@ pub fn is_ident_decfrac_data_type(cddl: &CDDL, ident: &Identifier) -> bool {
     return true;
   }
 
+  let Some(_guard) = AliasGuard::enter(ident) else {
+    return false;
+  };
+
   cddl.rules.iter().any(|r| match r {
     Rule::Type { rule, .. } if &rule.name == ident => rule.value.type_choices.iter().any(|tc| {
       if let Type2::Typename { ident, .. } = &tc.type1.type2 {
@@ -943,6 +1014,10 @@ pub fn is_ident_bigfloat_data_type(cddl: &CDDL, ident: &Identifier) -> bool {
   if let Token::BIGFLOAT = lookup_ident(ident.ident) {
     return true;
   }
+
+  let Some(_guard) = AliasGuard::enter(ident) else {
+    return false;
+  };
 
   cddl.rules.iter().any(|r| match r {
     Rule::Type { rule, .. } if &rule.name == ident => rule.value.type_choices.iter().any(|tc| {
@@ -974,6 +1049,10 @@ pub fn is_ident_numeric_data_type(cddl: &CDDL, ident: &Identifier) -> bool {
     return true;
   }
 
+  let Some(_guard) = AliasGuard::enter(ident) else {
+    return false;
+  };
+
   cddl.rules.iter().any(|r| match r {
     Rule::Type { rule, .. } if rule.name == *ident => rule.value.type_choices.iter().any(|tc| {
       if let Type2::Typename { ident, .. } = &tc.type1.type2 {
@@ -992,6 +1071,10 @@ pub fn is_ident_uint_data_type(cddl: &CDDL, ident: &Identifier) -> bool {
     return true;
   }
 
+  let Some(_guard) = AliasGuard::enter(ident) else {
+    return false;
+  };
+
   cddl.rules.iter().any(|r| match r {
     Rule::Type { rule, .. } if rule.name == *ident => rule.value.type_choices.iter().any(|tc| {
       if let Type2::Typename { ident, .. } = &tc.type1.type2 {
@@ -1009,6 +1092,10 @@ pub fn is_ident_nint_data_type(cddl: &CDDL, ident: &Identifier) -> bool {
   if let Token::NINT = lookup_ident(ident.ident) {
     return true;
   }
+
+  let Some(_guard) = AliasGuard::enter(ident) else {
+    return false;
+  };
 
   cddl.rules.iter().any(|r| match r {
     Rule::Type { rule, .. } if rule.name == *ident => rule.value.type_choices.iter().any(|tc| {
@@ -1072,6 +1159,10 @@ pub fn is_ident_integer_data_type(cddl: &CDDL, ident: &Identifier) -> bool {
     return true;
   }
 
+  let Some(_guard) = AliasGuard::enter(ident) else {
+    return false;
+  };
+
   cddl.rules.iter().any(|r| match r {
     Rule::Type { rule, .. } if rule.name == *ident => rule.value.type_choices.iter().any(|tc| {
       if let Type2::Typename { ident, .. } = &tc.type1.type2 {
@@ -1094,6 +1185,10 @@ pub fn ident_accepts_bignum_tag(cddl: &CDDL, ident: &Identifier, tag: u64) -> bo
     Token::BIGINT => return tag == 2 || tag == 3,
     _ => (),
   }
+
+  let Some(_guard) = AliasGuard::enter(ident) else {
+    return false;
+  };
 
   cddl.rules.iter().any(|r| match r {
     Rule::Type { rule, .. } if rule.name == *ident => rule.value.type_choices.iter().any(|tc| {
@@ -1128,6 +1223,10 @@ pub fn is_ident_float_data_type(cddl: &CDDL, ident: &Identifier) -> bool {
     return true;
   }
 
+  let Some(_guard) = AliasGuard::enter(ident) else {
+    return false;
+  };
+
   cddl.rules.iter().any(|r| match r {
     Rule::Type { rule, .. } if rule.name == *ident => rule.value.type_choices.iter().any(|tc| {
       if let Type2::Typename { ident, .. } = &tc.type1.type2 {
@@ -1145,6 +1244,10 @@ pub fn is_ident_string_data_type(cddl: &CDDL, ident: &Identifier) -> bool {
   if let Token::TEXT | Token::TSTR = lookup_ident(ident.ident) {
     return true;
   }
+
+  let Some(_guard) = AliasGuard::enter(ident) else {
+    return false;
+  };
 
   cddl.rules.iter().any(|r| match r {
     Rule::Type { rule, .. } if rule.name == *ident => rule.value.type_choices.iter().any(|tc| {
@@ -1164,6 +1267,10 @@ pub fn is_ident_any_type(cddl: &CDDL, ident: &Identifier) -> bool {
     return true;
   }
 
+  let Some(_guard) = AliasGuard::enter(ident) else {
+    return false;
+  };
+
   cddl.rules.iter().any(|r| match r {
     Rule::Type { rule, .. } if rule.name == *ident => rule.value.type_choices.iter().any(|tc| {
       if let Type2::Typename { ident, .. } = &tc.type1.type2 {
@@ -1181,6 +1288,10 @@ pub fn is_ident_byte_string_data_type(cddl: &CDDL, ident: &Identifier) -> bool {
   if let Token::BSTR | Token::BYTES = lookup_ident(ident.ident) {
     return true;
   }
+
+  let Some(_guard) = AliasGuard::enter(ident) else {
+    return false;
+  };
 
   cddl.rules.iter().any(|r| match r {
     Rule::Type { rule, .. } if rule.name == *ident => rule.value.type_choices.iter().any(|tc| {
